@@ -556,6 +556,22 @@ def _load_top(st, m, from_pxd):
         return
     if cn == 'CDefExternNode':
         return
+    if cn == 'CEnumDefNode':
+        items = {}
+        nxt = 0
+        for it in st.items:
+            if it.value is not None:
+                e = expr(it.value)
+                if e.k == 'Num':
+                    nxt = e.v
+                elif e.k == 'UnOp' and e.op == '-' and e.e.k == 'Num':
+                    nxt = -e.e.v
+            items[str(it.name)] = nxt
+            nxt += 1
+        if not hasattr(m, 'enums'):
+            m.enums = {}
+        m.enums[str(st.name)] = items
+        return
     m.body.extend(stmts(st))
 
 
